@@ -172,8 +172,15 @@ def gen_case(rng, index, tier):
     names = [rng.choice(BASE_NAMES) if rng.random() < 0.8 else
              gen.hostile_name(rng, allow_bad_utf8=False, maxbytes=20)
              for _ in range(n)]
+    hostile_perms = rng.random() < 0.08
+    kinds = None
+    if hostile_perms:
+        # payloads that cannot be removed without a chmod; the run is made
+        # without the capabilities that let root ignore mode bits
+        kinds = trashgen.PAYLOAD_KINDS + ['tree_locked', 'tree_readonly'] * 2
     L, trashes, entries = trashworld.make(rng, index, n_entries=n, names=names,
-                                          dates=['2005-05-05T05:05:05'])
+                                          dates=['2005-05-05T05:05:05'],
+                                          kinds=kinds)
     fulls = ['/' + e['loc'] for e in entries]
     pat, pclass = make_pattern(rng, [os.path.basename(e['loc']) for e in entries], fulls)
     case = L.desc()
@@ -181,6 +188,8 @@ def gen_case(rng, index, tier):
     case['pattern'] = pat
     case['pclass'] = pclass
     case['trashes'] = [t['rel'] for t in trashes]
+    if hostile_perms:
+        case['drop_caps'] = True
     return case
 
 
@@ -222,6 +231,18 @@ def run_case(case):
                     exp = None
             else:
                 exp = m_spec if m_spec == m_fn else None
+            if e['kind'] in ('tree_locked', 'tree_readonly') and case.get('drop_caps') \
+                    and exp is not False and st != 'gone':
+                # a matching entry whose payload cannot be removed: what is
+                # left keeps its .trashinfo, the failure is reported, and the
+                # OTHER matching entries are still removed (judged as usual)
+                obs['unremovable_payloads'] = obs.get('unremovable_payloads', 0) + 1
+                ik, pk = trashworld.pair_keys(e)
+                if ik not in s1 or s1[ik] != s0[ik]:
+                    viol(out, 'unremovable-payload-lost-its-info/' + e['kind'], r, e, pat)
+                elif exp is True and not r.errtext().strip():
+                    viol(out, 'unremovable-payload-not-reported/' + e['kind'], r, e, pat)
+                continue
             if exp is None:
                 obs['not_judged'] = obs.get('not_judged', 0) + 1
                 if st not in ('intact', 'gone'):
@@ -251,7 +272,9 @@ def run_case(case):
             out['violations'].append({'mechanism': 'changed-outside-trash',
                                       'detail': {'diff': od[:6], 'run': r.brief()}})
         if 'Traceback' in r.errtext():
-            out['violations'].append({'mechanism': 'traceback',
+            out['violations'].append({'mechanism': 'traceback' + (
+                '/unremovable-payload' if case.get('drop_caps') and
+                'Permission denied' in r.errtext() else ''),
                                       'detail': {'run': r.brief()}})
         out['nontrivial'] = any(c in pat for c in '*?[') and nm > 0 and nk > 0
         out['sample_obs'] = {'pattern': pat, 'removed': nm, 'kept': nk,
